@@ -785,6 +785,53 @@ func (p *c10MarkPatcher) Exit(node *ast.Node) {
 	}
 }
 
+// replaces the pattern literal "^p" wherever it occurs by a node made by mk
+type c10PatternPatcher struct {
+	mk   func() ast.Node
+	hits int
+}
+
+func (p *c10PatternPatcher) Enter(*ast.Node) {}
+func (p *c10PatternPatcher) Exit(node *ast.Node) {
+	if s, ok := (*node).(*ast.StringNode); ok && s.Value == "^p" {
+		p.hits++
+		ast.Patch(node, p.mk())
+	}
+}
+
+// what the pattern literal is replaced by; text = the replacement written out in the source (an invalid pattern cannot be
+// written as a literal - the parser rejects it - so its baseline reads the pattern from the environment)
+var c10PatternRepls = []struct {
+	what  string
+	text  string
+	fails bool
+	mk    func() ast.Node
+}{
+	{"another valid literal", "\"^z\"", false, func() ast.Node { return &ast.StringNode{Value: "^z"} }},
+	{"another valid literal, matching more", "\"^.\"", false, func() ast.Node { return &ast.StringNode{Value: "^."} }},
+	{"the same literal again", "\"^p\"", false, func() ast.Node { return &ast.StringNode{Value: "^p"} }},
+	{"an identifier", "PAT", false, func() ast.Node { return &ast.IdentifierNode{Value: "PAT"} }},
+	{"a compound expression", "(\"^\" + PZ)", false, func() ast.Node {
+		return &ast.BinaryNode{Operator: "+", Left: &ast.StringNode{Value: "^"}, Right: &ast.IdentifierNode{Value: "PZ"}}
+	}},
+	{"a literal that is not a valid pattern", "PBAD", true, func() ast.Node { return &ast.StringNode{Value: "("} }},
+}
+
+func c10RunMatch(src string, ops ...expr.Option) (out interface{}, err error) {
+	defer func() {
+		if r := recover(); r != nil {
+			err = fmt.Errorf("panic: %v", r)
+		}
+	}()
+	env := map[string]interface{}{"SP": "pabc", "SZ": "zabc", "PAT": "^z", "PZ": "z", "PBAD": "("}
+	ops = append([]expr.Option{expr.Env(env)}, ops...)
+	p, err := expr.Compile(src, ops...)
+	if err != nil {
+		return nil, err
+	}
+	return expr.Run(p, env)
+}
+
 // the macro idiom: Dbl(x) => x + x, Sq(x) => x * x, the argument node used in BOTH slots
 type c10MacroPatcher struct{}
 
@@ -1168,6 +1215,66 @@ func c10EndToEnd(rep *Report) {
 				rep.fail(Failure{Key: "C10-e2e-patch", What: "a user patch replacing string literals by constant nodes of another type (ast.Patch + ast.ConstantNode) does not take effect at position: " + c.position,
 					Input: input, Want: fmt.Sprintf("%v (= result of %s over constants)", want, c10ConstSubstitute(c.src)), Got: fmt.Sprintf("%v (error %v)", got, gerr), Replay: string(rp)})
 			}
+		}
+	}
+	// a user visitor that replaces the PATTERN literal of `x matches "lit"`: the parser has compiled the literal ahead of time
+	// (MatchesNode.Regexp), the walker replaces only the Right slot - the program must match against the REPLACEMENT (another
+	// literal, an identifier, a compound expression, the same literal again) and must fail at run time when the replacement is
+	// not a valid pattern, exactly like the source with the replacement written out
+	for _, c := range []c10E2E{
+		{"literal subject", "\"pabc\" matches \"^p\""},
+		{"literal subject, non-matching before the patch", "\"zabc\" matches \"^p\""},
+		{"variable subject", "SP matches \"^p\""},
+		{"variable subject under not", "not (SZ matches \"^p\")"},
+		{"condition of a conditional", "SP matches \"^p\" ? \"yes\" : \"no\""},
+		{"closure body", "filter([\"pa\", \"zb\", \"pc\"], {# matches \"^p\"})"},
+		{"operand of and", "SP matches \"^p\" and SZ matches \"^p\""},
+		{"argument", "len(map([SP, SZ], {# matches \"^p\"}))"},
+	} {
+		for _, r := range c10PatternRepls {
+			for _, opt := range []bool{true, false} {
+				rep.Evaluations++
+				rep.hist("e2e matches pattern: " + c.position + " / " + r.what)
+				patcher := &c10PatternPatcher{mk: r.mk}
+				got, gerr := c10RunMatch(c.src, expr.Patch(patcher), expr.Optimize(opt))
+				subst := strings.ReplaceAll(c.src, "\"^p\"", r.text)
+				want, werr := c10RunMatch(subst, expr.Optimize(opt))
+				input := map[string]interface{}{"e2e": c.src, "optimize": opt, "position": "pattern of matches, " + c.position, "replacement": r.what + ": " + r.text}
+				rp, _ := json.Marshal(input)
+				if (werr != nil) != r.fails {
+					rep.fail(Failure{Key: "C10-e2e-baseline", What: "the source with the replacement pattern written out does not behave as the campaign assumes", Input: input,
+						Want: fmt.Sprintf("run-time failure: %v", r.fails), Got: fmt.Sprintf("%v (error %v)", want, werr), Replay: string(rp)})
+					continue
+				}
+				if patcher.hits == 0 || (gerr != nil) != (werr != nil) || gerr == nil && !reflect.DeepEqual(got, want) {
+					rep.fail(Failure{Key: "C10-e2e-patch", What: "a user patch (expr.Patch) replacing the pattern literal of a `matches` does not take effect (" + r.what + "): " + c.position,
+						Input: input, Want: fmt.Sprintf("%v (error %v) (= result of %s)", want, werr, subst),
+						Got: fmt.Sprintf("%v (error %v; %d literals replaced)", got, gerr, patcher.hits), Replay: string(rp)})
+				}
+			}
+		}
+	}
+	// the optimizer as the replacing visitor: a pattern that becomes a literal only by folding has no pre-compiled Regexp
+	// (the parser saw a compound expression); the optimized program answers like the unoptimized one
+	for _, c := range []c10E2E{
+		{"pattern folded to a literal, variable subject", "SP matches (\"^\" + \"p\")"},
+		{"pattern folded to a literal, non-matching subject", "SZ matches (\"^\" + \"p\")"},
+		{"pattern folded to a literal, literal subject", "\"pabc\" matches (\"^\" + \"p\")"},
+		{"pattern folded to a literal in a closure body", "filter([\"pa\", \"zb\"], {# matches (\"^\" + \"p\")})"},
+	} {
+		rep.Evaluations++
+		rep.hist("e2e matches pattern: " + c.position)
+		want, werr := c10RunMatch(c.src, expr.Optimize(false))
+		got, gerr := c10RunMatch(c.src, expr.Optimize(true))
+		input := map[string]interface{}{"e2e": c.src, "position": "pattern of matches, " + c.position}
+		rp, _ := json.Marshal(input)
+		if werr != nil {
+			rep.fail(Failure{Key: "C10-e2e-baseline", What: "the unoptimized program does not compile and run", Input: input, Want: "a result", Got: werr.Error(), Replay: string(rp)})
+			continue
+		}
+		if gerr != nil || !reflect.DeepEqual(got, want) {
+			rep.fail(Failure{Key: "C10-e2e-optimizer", What: "a pattern operand rewritten by the optimizer does not take effect: " + c.position, Input: input,
+				Want: fmt.Sprintf("%v (= unoptimized)", want), Got: fmt.Sprintf("%v (error %v)", got, gerr), Replay: string(rp)})
 		}
 	}
 	// a rewrite of the optimizer reaches EVERY slot that holds the rewritten node - also the two slots of `a ?: b`, which the
